@@ -53,6 +53,28 @@ func checkC13(r *evid.Run) {
 			keepMu.Unlock()
 		}
 	})
+	// histories that mix the validating operations (verify) with walks/outputs of trees whose names are
+	// not valid path elements: what one operation switches on must not leak into a later one
+	runApiModel(r, "MC_C13_fsops.cfg", timeout, func(a *apiState) {
+		if len(a.Hist) == 0 {
+			return
+		}
+		c := concs[a.N%len(concs)]
+		apiMu.Lock()
+		d, kind := replayHistory(a, c, false)
+		apiMu.Unlock()
+		r.Count("real_calls", len(a.Hist))
+		if d != "" {
+			r.Mismatch("api-history:"+kind, fmt.Sprintf("history [%s] conc=%s: %s", histString(a.Hist), c.Name, d),
+				apiReplayRec{Hist: a.Hist, Conc: c, Variant: a.N})
+		}
+	})
+	// beyond the bound: long random histories (wide fan-out, several trees) validated by TLC (TraceApi.tla)
+	if r.Tier == "thorough" {
+		traceAPIHistories(r, 400, 60)
+	} else {
+		traceAPIHistories(r, 40, 40)
+	}
 	r.Set("exhaustive", true)
 	r.Set("rule", "every history of at most MaxCalls calls over NewRoot(a|b), Add(any live node, a|b) and any From-Root operation on any live root (text, walk; thorough: + encoders), each re-executed on the real API and its last result compared with the declarative result of the tree's shape; then the same histories executed concurrently from 16 goroutines; non-trivial = at least 3 calls incl. an operation")
 	// pass 2: the same histories, free-running in many goroutines at once (each goroutine owns its trees)
